@@ -2,6 +2,7 @@ import SLE.Model.TC
 import SLE.Driver.LiftD
 import SLE.Driver.UnifyD
 import SLE.Driver.PipelineD
+import SLE.Driver.SlotOracle
 /-! Driver for family `tc`: the type-checking pipeline on an explicit list of values. -/
 namespace SLE.Driver.TCD
 open SLE SLE.SV SLE.TC SLE.JsonModel SLE.Driver SLE.Driver.Types
@@ -44,40 +45,6 @@ def rerrName : RErr → String
   | .unificationFailure => "UnificationFailure" | .unificationIncomplete => "UnificationIncomplete"
   | .invalidInference => "InvalidInference" | .outOfFuel => "OutOfFuel"
 
-mutual
-/-- constants in a tree (with the folded value of every sub-tree) -/
-def constsOf : SV → List Nat → List Nat
-  | .node k attrs ks _, acc =>
-    let acc := match k, attrs with
-      | .knownData, w :: _ => if acc.contains w then acc else w :: acc
-      | _, _ => acc
-    constsOfList ks acc
-def constsOfList : List SV → List Nat → List Nat
-  | [], acc => acc
-  | k :: ks, acc => constsOfList ks (constsOf k acc)
-end
-
-def litOf (key : SV) (lits : List Nat) : List Nat :=
-  match key with
-  | .node .knownData (w :: _) _ _ => if lits.contains w then lits else w :: lits
-  | _ => lits
-
-mutual
-/-- (constants in key position of a storage access, literal keys of loads and writes,
-constants in value position of a storage access) -/
-def storageConsts : SV → (List Nat × List Nat × List Nat) → (List Nat × List Nat × List Nat)
-  | .node k _ ks _, (keys, lits, vals) =>
-    let (keys, lits, vals) := match k, ks with
-      | .sLoad, [key, v] => (constsOf key keys, litOf key lits, constsOf v vals)
-      | .storageWrite, [key, v] => (constsOf key keys, litOf key lits, constsOf v vals)
-      | .unwrittenStorageValue, [key] => (constsOf key keys, lits, vals)
-      | _, _ => (keys, lits, vals)
-    storageConstsList ks (keys, lits, vals)
-def storageConstsList : List SV → (List Nat × List Nat × List Nat) → (List Nat × List Nat × List Nat)
-  | [], acc => acc
-  | k :: ks, acc => storageConstsList ks (storageConsts k acc)
-end
-
 def handle (tbl : Array (Nat × Nat)) (payload impl : String) : String × String :=
   let parts := payload.splitOn " $ "
   let vals := parts.filterMap parseSV
@@ -93,11 +60,6 @@ def handle (tbl : Array (Nat × Nat)) (payload impl : String) : String × String
     | .unifyFault .outOfFuel => head ++ "res=err U.StoppedByWatchdog"
     | .unifyFault _ => "PANIC unify"
     | .renderFault e => head ++ "res=err U." ++ rerrName e
-  -- oracles on the implementation's answer, from the *input* values only
-  let (keys, lits, valueConsts) := storageConstsList vals ([], [], [])
-  let pre := fun (w : Nat) => LiftD.tableLookup tbl w
-  let base := keys ++ keys.filterMap pre
-  let allowed := fun (w : Nat) => base.contains w || base.any (fun a => base.any (fun b => (a + b) % 2 ^ 256 == w))
   let verdict :=
     if impl.startsWith "PANIC" then "FAIL C01-panic:" ++ impl
     else if (impl.splitOn "res=err").length > 1 then
@@ -106,16 +68,11 @@ def handle (tbl : Array (Nat × Nat)) (payload impl : String) : String × String
       | none => if impl.startsWith "err" then "ok" else "FAIL unparsable-impl-answer"
       | some es =>
         let c12 := PipelineD.oracleC12 es
-        let c05 := match es.find? (fun e => !(allowed e.index)) with
-          | some e =>
-            let fromValue := valueConsts.contains e.index || (valueConsts.filterMap pre).contains e.index ||
-              valueConsts.any (fun a => valueConsts.any (fun b => (a + b) % 2 ^ 256 == e.index))
-            [(if fromValue then "C05-phantom-slot-from-value-position:0x" else "C05-phantom-slot:0x") ++ natHex e.index]
-          | none => []
-        let c06 := match lits.find? (fun w => (pre w).isNone && !(es.any (fun e => e.index == w))) with
-          | some w => ["C06-missed-slot:0x" ++ natHex w]
-          | none => []
-        PipelineD.verdictOf (c12 ++ c05 ++ c06)
+        -- an out-of-slot entry whose input holds a mask nested in a narrower mask is finding D20
+        let c12 := if !c12.isEmpty && vals.any LiftD.liftsToNestedWider
+          then c12.map (fun x => x.replace "C12-entry-" "C12-nested-mask-entry-") else c12
+        let slots := SlotOracle.check tbl vals (es.map (·.index))
+        PipelineD.verdictOf (c12 ++ slots)
   (model, verdict)
 
 end SLE.Driver.TCD
